@@ -528,6 +528,7 @@ func (cs *ContractSet) ParseContractFile(path, pkgPath string) error {
 		line int
 	}
 	var lines []rawLine
+	var aliases map[string]string
 	for i, l := range strings.Split(string(data), "\n") {
 		t := strings.TrimSpace(l)
 		if !strings.HasPrefix(t, "//@") {
@@ -536,6 +537,20 @@ func (cs *ContractSet) ParseContractFile(path, pkgPath string) error {
 		t = strings.TrimSpace(t[3:])
 		if t == "" || strings.HasPrefix(t, "#") {
 			continue
+		}
+		if strings.HasPrefix(t, "alias ") {
+			// alias NAME = text : later occurrences of $NAME in this file are replaced by text
+			kv := strings.SplitN(strings.TrimPrefix(t, "alias "), "=", 2)
+			if len(kv) == 2 {
+				if aliases == nil {
+					aliases = map[string]string{}
+				}
+				aliases["$"+strings.TrimSpace(kv[0])] = strings.TrimSpace(kv[1])
+			}
+			continue
+		}
+		for k, v := range aliases {
+			t = strings.ReplaceAll(t, k, v)
 		}
 		first := t
 		if j := strings.IndexAny(t, " \t("); j >= 0 {
@@ -574,10 +589,19 @@ func (cs *ContractSet) ParseContractFile(path, pkgPath string) error {
 			}
 			fc.Name = name
 			if kind == "extern" {
-				if _, dup := cs.Externs[name]; dup {
-					return fail(fmt.Errorf("duplicate extern %s", name))
+				if prev, dup := cs.Externs[name]; dup {
+					// a later block for the same extern adds clauses to the earlier one
+					// (a package refines a shared assumed contract with its own vocabulary)
+					if len(fc.Params) > 0 && len(prev.Params) > 0 && strings.Join(fc.Params, ",") != strings.Join(prev.Params, ",") {
+						return fail(fmt.Errorf("extern %s: parameter names differ from the earlier block", name))
+					}
+					if prev.PkgPath == "" {
+						prev.PkgPath = pkgPath
+					}
+					fc = prev
+				} else {
+					cs.Externs[name] = fc
 				}
-				cs.Externs[name] = fc
 			} else {
 				key := pkgPath + "::" + name
 				if _, dup := cs.Funcs[key]; dup {
